@@ -38,12 +38,12 @@ fn ref_signable(info_hash: &[u8; 20], t: u64) -> [u8; 28] {
 fn c02_o2_signed_announce_response() {
     let verdict: bool = kani::any();
     oracle::arm(0, verdict);
-    let ih: [u8; 20] = kani::any();
+    let ih: [u8; 20] = kani::env();
     let t: u64 = kani::any();
     let now: u64 = kani::any();
     wall::set(now);
     let msg = ref_signable(&ih, t);
-    let sym_sig: [u8; 64] = kani::any();
+    let sym_sig: [u8; 64] = kani::env();
     let sig = oracle::signature(0, 1, &msg, sym_sig);
     let r = SignedAnnounce::from_dht_response(&Id::from(ih), &oracle::K1, t, &sig);
     assert!(r.is_ok() == verdict, "C02.O2 signed announcement accepted iff its signature verifies");
@@ -74,12 +74,12 @@ fn c02_o2_signed_announce_response() {
 fn c03_o4p_signed_announce_request() {
     let verdict: bool = kani::any();
     oracle::arm(0, verdict);
-    let ih: [u8; 20] = kani::any();
+    let ih: [u8; 20] = kani::env();
     let t: u64 = kani::any();
     let now: u64 = kani::any();
     wall::set(now);
     let msg = ref_signable(&ih, t);
-    let sym_sig: [u8; 64] = kani::any();
+    let sym_sig: [u8; 64] = kani::env();
     let sig = oracle::signature(0, 1, &msg, sym_sig);
     let r = SignedAnnounce::from_dht_request(&Id::from(ih), &oracle::K1, t, &sig);
     let diff = if now >= t { now - t } else { t - now };
